@@ -2,6 +2,14 @@ module verif
 
 go 1.23.1
 
-require github.com/dapr/kit v0.0.0
+require (
+	github.com/dapr/kit v0.0.0
+	golang.org/x/tools v0.21.1-0.20240508182429-e35e4ccd0d2d
+)
+
+require (
+	golang.org/x/mod v0.17.0 // indirect
+	golang.org/x/sync v0.7.0 // indirect
+)
 
 replace github.com/dapr/kit => /repo
